@@ -2,6 +2,7 @@
 import re
 from analysis.engine import rule, AnchorMissing
 from analysis import cfg
+from analysis.facts import norm_path
 from analysis.sym import sym, show_in, nosite, peel, core, walk, ret_values, args_of, guards_at, atoms_at, \
     variant_facts_at, cmp_facts_at, init_value, edge_guards, symbolizer, simplify
 from analysis.pat import match, Call, Cap, ANY, Pred, Const, has, chain_names
@@ -208,24 +209,43 @@ def r3(ctx):
         ok = bool(somes) and all(match(av, ('agg', 'adt', Pred(lambda n: n.endswith('Option::Some')), (Pred(lambda u: nosite(core(u)) == nosite(core(item))),))) for av in somes)
     ctx.require(ok, bf, 'remainder-is-rejected-item', 'the remainder returned is Some(the rejected item)', None)
     # BatchLimit tables
+    from analysis.alts import ret_variant_alts, merge_minmax
+    is_self = lambda c: c[0] == 'arg' and c[1] == 1
+
+    def one_mul(t):
+        """x * 1 is x (`count * size_per_item` with a size of 1 for plain batch sizes)"""
+        c = core(t)
+        if c[0] == 'bin' and c[1] == 'Mul':
+            for x, y in ((c[2], c[3]), (c[3], c[2])):
+                if match(core(y), Const(1)):
+                    return core(x)
+        return c
     lim = ctx.body('data::loading::BatchLimit::limit')
     tbl = {}
-    for v, blk in ret_values(lim):
-        for tt, names in variant_facts_at(lim, blk):
-            for n_ in names:
-                tbl[n_] = core(v)
-    ok = 'BatchSize' in tbl and match(tbl['BatchSize'], ('field', ('variant', ('arg', 1, ANY), 'BatchSize'), 0)) and \
-        'TotalItemSize' in tbl and match(tbl['TotalItemSize'], ('bin', 'Mul', ('field', ('variant', ('arg', 1, ANY), 'TotalItemSize'), 0),
-                                                                  ('field', ('variant', ('arg', 1, ANY), 'TotalItemSize'), 1)))
+    for k, als in (ret_variant_alts(ctx.facts, lim, is_self) or {}).items():
+        vals = {repr(one_mul(a_.value)): one_mul(a_.value) for a_ in als}
+        if len(vals) == 1:
+            tbl[k] = list(vals.values())[0]
+    f0 = lambda v: ('field', ('variant', ('arg', 1, ANY), v), 0)
+    f1 = lambda v: ('field', ('variant', ('arg', 1, ANY), v), 1)
+    ok = 'BatchSize' in tbl and match(tbl['BatchSize'], f0('BatchSize')) and \
+        'TotalItemSize' in tbl and (match(tbl['TotalItemSize'], ('bin', 'Mul', f0('TotalItemSize'), f1('TotalItemSize'))) or
+                                    match(tbl['TotalItemSize'], ('bin', 'Mul', f1('TotalItemSize'), f0('TotalItemSize'))))
     ctx.require(ok, lim, 'limit-table', 'limit() = count | count * max_length', 'limit() is %s' % {k: show_in(lim, v) for k, v in tbl.items()})
     up = ctx.body('data::loading::BatchLimit::update')
     tbl = {}
-    for v, blk in ret_values(up):
-        if v[0] == 'agg' and v[1] == 'adt':
-            tbl[v[2].rsplit('::', 1)[-1]] = tuple(core(x) for x in v[3])
-    okb = 'BatchSize' in tbl and match(tbl['BatchSize'][0], ('bin', 'Add', ('field', ('variant', ('arg', 1, ANY), 'BatchSize'), 0), Const(1)))
-    okt = 'TotalItemSize' in tbl and match(tbl['TotalItemSize'][0], ('bin', 'Add', ('field', ('variant', ('arg', 1, ANY), 'TotalItemSize'), 0), Const(1))) and \
-        match(tbl['TotalItemSize'][1], Call('Ord::max', ('field', ('variant', ('arg', 1, ANY), 'TotalItemSize'), 1), Call('ItemSize::size', ('arg', 2, ANY))))
+    for k, als in (ret_variant_alts(ctx.facts, up, is_self) or {}).items():
+        # `if size > max_length { size } else { max_length }` is max(max_length, size)
+        v = merge_minmax(als)
+        if v is None:
+            vals = {repr(a_.value): a_.value for a_ in als}
+            v = list(vals.values())[0] if len(vals) == 1 else None
+        if v is not None and v[0] == 'agg' and v[1] == 'adt' and v[2].rsplit('::', 1)[-1] == k:
+            tbl[k] = tuple(core(x) for x in v[3])
+    okb = 'BatchSize' in tbl and match(tbl['BatchSize'][0], ('bin', 'Add', f0('BatchSize'), Const(1)))
+    okt = 'TotalItemSize' in tbl and match(tbl['TotalItemSize'][0], ('bin', 'Add', f0('TotalItemSize'), Const(1))) and \
+        (match(tbl['TotalItemSize'][1], Call('Ord::max', f1('TotalItemSize'), Call('ItemSize::size', ('arg', 2, ANY)))) or
+         match(tbl['TotalItemSize'][1], Call('Ord::max', Call('ItemSize::size', ('arg', 2, ANY)), f1('TotalItemSize'))))
     ctx.require(okb and okt, up, 'update-table', 'update(): count + 1 | (count + 1, max(max_length, item.size()))',
                 'update() is %s' % {k: [show_in(up, x) for x in v] for k, v in tbl.items()})
     from analysis.reduce import reduce_of
@@ -237,15 +257,46 @@ def r3(ctx):
             tbl[v[2].rsplit('::', 1)[-1]] = tuple(core(x) for x in v[3])
             raw[v[2].rsplit('::', 1)[-1]] = v[3]
     if not tbl:
-        raise AnchorMissing('from_items(): the BatchLimit values it returns (not built as literals, e.g. folded through update())')
-    okb = 'BatchSize' in tbl and match(tbl['BatchSize'][0], Call('len', ('arg', 1, ANY)))
-    okt = 'TotalItemSize' in tbl and match(tbl['TotalItemSize'][0], Call('len', ('arg', 1, ANY)))
-    red = reduce_of(ctx.facts, fi, raw['TotalItemSize'][1]) if okt else None
-    okt = okt and red is not None and red.op == 'max' and red.init is not None and match(core(red.init), Const(0)) and len(red.segs) == 1 and \
-        red.segs[0].kind == 'each' and not red.segs[0].conds and match(core(red.segs[0].src), ('arg', 1, ANY)) and \
-        match(core(red.segs[0].elem), Call('ItemSize::size', ITEM))
-    ctx.require(okb and okt, fi, 'from-items-table', 'from_items(): len | (len, max size of the items, 0 when empty)',
-                'from_items() is %s (max size: %r)' % ({k: [show_in(fi, x) for x in v] for k, v in tbl.items()}, red))
+        # the other way to say it: the items folded one by one through update() (whose table is checked above) into the accounting of
+        # the empty batch, BatchSize(0) / TotalItemSize(0, 0) according to the limit type
+        from analysis.alts import ret_alts_paths, flatten as _fl, Alt as _Alt, consistent as _cons
+        folds = []
+        for a_ in ret_alts_paths(ctx.facts, fi) or []:
+            for x_ in _fl(a_.value):
+                m_ = _Alt(nosite(x_.value), list(a_.variants) + list(x_.variants), list(a_.atoms) + list(x_.atoms))
+                if _cons(m_):
+                    folds.append(m_)
+        okf = bool(folds)
+        seen = set()
+        for m_ in folds:
+            v = peel(m_.value)
+            good = v[0] == 'call' and v[1].endswith('::fold') and len(v[2]) == 3 and match(core(v[2][0]), ('arg', 1, ANY))
+            if good:
+                clo = closure_of(ctx, v[2][2])
+                crv = ret_values(clo)
+                good = len(crv) == 1 and match(nosite(crv[0][0]), Call('BatchLimit::update', ('arg', 2, ANY), ('arg', 3, ANY)))
+            if good:
+                i_ = peel(v[2][1])
+                ty = m_.state_of(lambda c: core(c)[0] == 'arg' and core(c)[1] == 2)
+                good = i_[0] == 'agg' and i_[1] == 'adt' and all(match(core(z_), Const(0)) for z_ in i_[3]) and \
+                    (ty, i_[2].rsplit('::', 1)[-1], len(i_[3])) in (('BatchSize', 'BatchSize', 1), ('PaddedItemSize', 'TotalItemSize', 2))
+                seen.add(ty)
+            okf = okf and good
+        if not folds or not all(peel(m_.value)[0] == 'call' and peel(m_.value)[1].endswith('::fold') for m_ in folds):
+            raise AnchorMissing('from_items(): the BatchLimit values it returns (neither literals nor a fold through update())')
+        ctx.require(okf and seen == {'BatchSize', 'PaddedItemSize'}, fi, 'from-items-table',
+                    'from_items(): the items folded through update() from BatchSize(0) | TotalItemSize(0, 0)',
+                    'from_items() folds %s' % [repr(m_)[:200] for m_ in folds])
+        tbl = None
+    if tbl is not None:
+        okb = 'BatchSize' in tbl and match(tbl['BatchSize'][0], Call('len', ('arg', 1, ANY)))
+        okt = 'TotalItemSize' in tbl and match(tbl['TotalItemSize'][0], Call('len', ('arg', 1, ANY)))
+        red = reduce_of(ctx.facts, fi, raw['TotalItemSize'][1]) if okt else None
+        okt = okt and red is not None and red.op == 'max' and red.init is not None and match(core(red.init), Const(0)) and len(red.segs) == 1 and \
+            red.segs[0].kind == 'each' and not red.segs[0].conds and match(core(red.segs[0].src), ('arg', 1, ANY)) and \
+            match(core(red.segs[0].elem), Call('ItemSize::size', ITEM))
+        ctx.require(okb and okt, fi, 'from-items-table', 'from_items(): len | (len, max size of the items, 0 when empty)',
+                    'from_items() is %s (max size: %r)' % ({k: [show_in(fi, x) for x in v] for k, v in tbl.items()}, red))
     # Batched::new clamps the limit to >= 1 and the prefetch factor to >= 1
     nw = ctx.body(B + '::new')
     rv = [v for v, blk in ret_values(nw)]
@@ -538,3 +589,26 @@ def r8(ctx):
                         b.blocks[g.block].term.span)
     if n < 3:
         raise AnchorMissing('comparisons with k in find_subsequences_of_max_size_k (found %d)' % n)
+
+
+@rule('C06', 'R-C06-9', 'T4 GUARD (no allocation sized by the batch limit)',
+      'batch_from / build_batch never reserve memory in proportion to the user\'s batch limit (Vec::with_capacity(limit), reserve(limit)): the '
+      'limit is only bounded from below, "no limit" is written usize::MAX, and a capacity of that size panics ("capacity overflow") or aborts '
+      'before the first item is pulled')
+def r9(ctx):
+    bb, bf = _bodies(ctx)
+    n = 0
+    for b in (bb, bf):
+        lim = {i for i in range(1, b.arg_count + 1) if 'limit' in (b.var_name(i) or '') and b.local_ty(i) == 'usize'}
+        for x in [b] + closures_in(ctx, b):
+            for t in x.calls(r'::with_capacity$|::reserve$|::reserve_exact$'):
+                n += 1
+                a = core(sym(x, t.args[-1]))
+                if x is not b:
+                    from rules.common import resolve_upvars
+                    a = core(resolve_upvars(ctx, x, a))
+                bad = [y for y in walk(a) if isinstance(y, tuple) and y and y[0] == 'arg' and y[1] in lim]
+                ctx.require(not bad, x, 'capacity-from-limit|' + norm_path(b.path).rsplit('::', 1)[-1], 'the capacity hint at line %d does not depend on the batch limit' % t.span['line'],
+                            '`%s(%s)` at line %d sizes an allocation by the batch limit: with an unbounded limit (usize::MAX) this is a capacity overflow panic / allocation '
+                            'failure before any item is batched' % ((t.callee_res() or '').rsplit('::', 1)[-1], show_in(x, a)[:60], t.span['line']), t.span)
+    ctx.ok(None, '%d capacity hints in batch_from / build_batch inspected' % n)
